@@ -268,6 +268,70 @@ def check_influence(case, ctx):
         random.setstate(state)
 
 
+# ------------------------------------------------------------------------------------ unusual import environments
+_ENV_CHILD = r"""
+import json, sys, types
+spec = json.loads(sys.stdin.readline())
+if spec["env"] == "secrets-module-without-SystemRandom":
+    sys.modules["secrets"] = types.ModuleType("secrets")          # an application module that happens to be called secrets
+elif spec["env"] == "secrets-not-importable":
+    sys.modules["secrets"] = None
+elif spec["env"] == "forked-children":
+    pass
+sys.path.insert(0, spec["repo"])
+import random
+from btc_hd_wallet import bip39
+from btc_hd_wallet.base_wallet import BaseWallet
+out = []
+if spec["env"] == "forked-children":
+    import os
+    # the package is imported, then the process forks workers (pre-fork servers, multiprocessing): each child's FIRST wallet
+    for j in range(3):
+        r, w = os.pipe()
+        pid = os.fork()
+        if pid == 0:
+            os.close(r)
+            os.write(w, BaseWallet.new_wallet(spec["words"]).mnemonic.encode())
+            os._exit(0)
+        os.close(w)
+        out.append(os.read(r, 4096).decode())
+        os.waitpid(pid, 0)
+else:
+    for j in range(2):
+        random.seed(spec["seed"])
+        out.append(bip39.mnemonic_from_entropy_bits(spec["words"] * 32 // 3))
+    for j in range(2):
+        random.seed(spec["seed"])
+        out.append(BaseWallet.new_wallet(spec["words"]).mnemonic)
+print(json.dumps(out))
+"""
+
+
+def check_import_env(case, ctx):
+    """The library is imported in a process whose environment differs from the usual one (a foreign top-level module named
+    `secrets`, `secrets` not importable, workers forked after the import); fresh wallets must still differ from each other."""
+    import os, subprocess, sys
+    from vlib.engine import repo_dir
+    spec = {"repo": repo_dir(), "env": case["env"], "words": case["words"], "seed": 5}
+    env = dict(os.environ, PYTHONDONTWRITEBYTECODE="1", PYTHONHASHSEED="0")
+    env.pop("PYTHONPATH", None)
+    r = subprocess.run([sys.executable, "-c", _ENV_CHILD], input=json.dumps(spec) + "\n", capture_output=True, text=True, env=env, timeout=300)
+    if r.returncode != 0:
+        ctx.count("creation-failed-in-this-environment (allowed): " + case["env"])
+        return
+    sents = json.loads(r.stdout.strip().splitlines()[-1])
+    for s_ in sents:
+        dec = R39.decode(s_)
+        if dec is None or not dec[1] or len(dec[0]) * 8 != ent_bits(case["words"]):
+            raise Violation("C08/new/invalid-sentence", "environment %s: produced %r" % (case["env"], s_))
+    groups = [sents] if case["env"] == "forked-children" else [sents[:2], sents[2:]]
+    for g_ in groups:
+        if len(set(g_)) != len(g_):
+            raise Violation("C08/repeat/same-wallet-in-unusual-environment[%s]" % case["env"], "%d-word wallets created %s coincide: %r"
+                            % (case["words"], "by forked children right after the import" if case["env"] == "forked-children"
+                               else "after identical reseeds of the process-wide PRNG", g_))
+
+
 def clauses():
     return [
         Clause("history", check_history,
@@ -299,6 +363,14 @@ def clauses():
                                   for j_ in range(1 if tier == "quick" else 3)],
                exhaustive=True, enum_desc="4 apis x 5 lengths x 1 (quick) / 3 (thorough) scripted streams, every consumed bit",
                shards={"quick": 16, "thorough": 16}),
+        Clause("import-environment", check_import_env,
+               "one fresh interpreter per case: a foreign top-level module called `secrets` (without SystemRandom) is already "
+               "imported, `secrets` is not importable at all, or three workers are forked right after the import; wallets "
+               "created after identical reseeds / by the forked children must not coincide (a creation may fail)",
+               enum=lambda tier: [{"env": e_, "words": w_} for e_ in ("secrets-module-without-SystemRandom", "secrets-not-importable", "forked-children")
+                                  for w_ in ((12, 24) if tier == "quick" else WORDS)],
+               exhaustive=True, enum_desc="3 environments x 2 (quick) / 5 (thorough) lengths", nontrivial=lambda c: True,
+               shards={"quick": 6, "thorough": 15}),
         Clause("bit-variation", check_bits,
                "for each api x length: 96 (quick) / 192 (thorough) fresh wallets; every one of the ENT bit positions, "
                "explicitly including bit ENT-1, must be seen as 0 and as 1; no two wallets coincide",
